@@ -1745,6 +1745,9 @@ class Union(OR):
     ) -> Iterable[OperationResult]:
         sources = sources or {}
         self._eval_parent_ = parent
+        # an evaluation that was not run to its end leaves its flags behind
+        self.left_evaluated = False
+        self.right_evaluated = False
 
         yield from self.evaluate_left(sources)
         yield from self.evaluate_right(sources)
